@@ -188,3 +188,40 @@ NOT_APPLICABLE = {
     'C19': 'a value-level round trip over all trees of a grammar class; the tree-matching grammar is a second compilation whose agreement with '
            'the first is semantic; the predicate the two share (is_discarded_terminal) is checked under C03.',
 }
+
+
+# clauses added during the seeded-change campaigns (DESIGN §3.9): appended to what each check says it decides
+_EXTRA_DECIDES = {
+    'C03': 'Also: child slots of the forest-to-tree conversion are tested only by identity with their sentinel; nested builders receive the '
+           'outer builder\'s configuration; rule modifiers are membership tests; the ambiguity product expands exactly the collected set; '
+           'shallow forks are never fed with callbacks on.',
+    'C04': 'Also: the scan buffer is read-only and carried whole over ignored text; the dynamic_complete prefix loop has no early exit and files '
+           'each match under its own end; sentinel-guarded slots.',
+    'C05': 'Also: every compiled rule owns its RuleOptions; helper rules carry no priority; symbol nodes start at the identity of the aggregation; '
+           'edit_terminals precedes the priority mode; keyed orderings compare one comparable kind; eq/hash of forest nodes.',
+    'C06': 'Also: token coordinates are copied from measured ones, never computed from lengths.',
+    'C07': 'Also: the width that orders terminals is measured on the expression that is compiled; no conditional callback registration is '
+           'overwritten by the next statement; keyed orderings are total.',
+    'C08': 'Also: accepts()/choices() are pure; keyed orderings on the error path are total; no identity comparison between wrappers that define '
+           'equality; the Indenter hands a token on before asserting about it.',
+    'C10': 'Also: no long-lived field holds per-call machinery; Grammar.compile deep-copies the trees it rewrites; the post-lexer is applied to '
+           'every stream and reset with fresh objects.',
+    'C11': 'Also: loading does not write into its input; class-level defaults that carry data are serialised; command-line switches of the '
+           'generator are forwarded.',
+    'C12': 'Also: options leave the key only by name; loaders in import_paths print all their fields; FS.open keeps the mode; the cache path is '
+           'fixed before the load attempt.',
+    'C13': 'Also: hand-written copies cover every field that changes, deep copies are unconditional, the state copy keeps its lexer recognisable; '
+           'accepts() is pure.',
+    'C14': 'Also: the contextual lexer searches with the lexer of the start state; window bounds (strict negative normalisation, exact '
+           'is_complete_text).',
+    'C15': 'Also: the line counter is only fed pieces of the input; twin arms of representation splits agree; one known finding (look-behind at '
+           'the window start).',
+    'C16': 'Also: the embedded calling convention equals _call_userfunc\'s (one known finding: Transformer_InPlace without v_args), adapters are '
+           'transparent, a v_args wrapper takes precedence whatever the transformer class; token callbacks reach the parser unadapted; '
+           '?rule inlining tests exactly len == 1.',
+    'C18': 'Also: only indentation is measured; python.lark\'s newline terminal captures the counted characters and absorbs ignored comments; '
+           'INDENT/DEDENT are declared, bracket types pair up; the post-lexer is always applied and reset with fresh objects.',
+    'C20': 'Also: success marks are consumed by the node they were set for; id-keyed tables are renewed per walk; the scan buffer is read-only.',
+}
+for _prop, _txt in _EXTRA_DECIDES.items():
+    PROPERTIES[_prop]['level_text'] = PROPERTIES[_prop]['level_text'].replace(' DOES NOT DECIDE:', ' ' + _txt + ' DOES NOT DECIDE:')
